@@ -2,6 +2,7 @@ package main
 
 import (
 	"fmt"
+	"os"
 	"regexp"
 	"strings"
 	"sync"
@@ -143,6 +144,10 @@ func checkC03(tier string, seed int64) int {
 			}
 		}
 	}
+	onlyNesting := os.Getenv("GOSX_ONLY") == "nesting" // debugging aid
+	if onlyNesting {
+		jobs = nil
+	}
 	agg := NewAgg()
 	var mu sync.Mutex
 	type cand struct {
@@ -218,6 +223,9 @@ func checkC03(tier string, seed int64) int {
 		corpus = append(corpus, genComposite(i, seed*1000+int64(i)).Src, genCallProg(i, seed*1000+int64(i)).Src, genScopeProg(i, seed*1000+int64(i)).Src)
 	}
 	cagg := NewAgg()
+	if onlyNesting {
+		corpus = nil
+	}
 	parallel(len(corpus), c.Eng.Workers, func(i int) {
 		src := corpus[i]
 		rep := c.Eng.ExploreWith(func(ex *gosx.Exec) {
@@ -285,6 +293,16 @@ func checkC03(tier string, seed int64) int {
 		c.AddViolation(Violation{Key: cd.f.ID, What: fmt.Sprintf("%s; source %q options %s → %s", cd.f.Msg, src, optString(cd.f.Model), truncate(what, 200)),
 			Replay: map[string]interface{}{"kind": "c03", "src": src, "vec": cd.f.Model, "harness": hname, "assertion": cd.f.ID}})
 	})
+	// parser recursion is bounded by the implementation, not by the host's stack (one inductive step, depth symbolic)
+	{
+		nagg := NewAgg()
+		res := c.runLemmaHarnesses([]string{"verifH_C03_depth_guard"}, "z3", nagg)
+		c.confirmLemmaFailures(res, func(id string) string {
+			return "parser recursion is not bounded: " + strings.TrimPrefix(id, "C03/depth-guard/")
+		})
+		nagg.Into(c, "depth_guard_")
+		c.Assumption("depth-guard lemma: parser.Expression is entered once per nesting level (Statement, Block, every Nud/Led recurse through it — by reading parse.go/symbol.go) and parser.Depth counts its active frames; from an arbitrary symbolic depth d one more level is parsed: the counter is restored on return, ordinary depths (< 1000) are accepted, and depths ≥ 4e6 (beyond what a 1 GB Go stack survived in native runs: 1e6 levels passed, 5e6 died) are refused. Operator / else-if chains (parsed by iteration, walked by the compiler's recursion) need inputs of ≥ 1e5 tokens and are outside what the engine reaches; the tree-depth bound added to parse() for them was checked natively only")
+	}
 	agg.Into(c, "")
 	c.Cov("stages_reached", stages)
 	c.Cov("front_end_unwind_paths", unwindFront)
